@@ -97,6 +97,15 @@ SplitFrom(s, b, p, acc) ==    \* segments of s between occurrences of octet b
     LET i == IndexOf(s, b, p)
     IN IF i = 0 THEN Append(acc, SubSeq(s, p, Len(s))) ELSE SplitFrom(s, b, i + 1, Append(acc, SubSeq(s, p, i - 1)))
 SplitOn(s, b) == SplitFrom(s, b, 1, <<>>)
+\* s without the SP / HTAB runs that touch an "="
+RECURSIVE SqueezeFrom(_, _)
+SqueezeFrom(s, i) ==
+    IF i > Len(s) THEN <<>>
+    ELSE LET p == LastNonWs(s, i)
+             n == FirstNonWs(s, i)
+             drop == IsWs(s[i]) /\ ((p # 0 /\ s[p] = EQUALS) \/ (n # 0 /\ s[n] = EQUALS))
+         IN (IF drop THEN <<>> ELSE <<s[i]>>) \o SqueezeFrom(s, i + 1)
+SqueezeEq(s) == SqueezeFrom(s, 1)
 \* a Set-Cookie field value carries exactly the cookie c (RFC 6265 5.2 splitting: ";" then first "=")
 CookieMatches(val, c) ==
     LET segs == SplitOn(val, SEMI)
@@ -105,12 +114,10 @@ CookieMatches(val, c) ==
                       ELSE <<LowerSeq(Trim(SubSeq(seg, 1, q - 1))), Trim(SubSeq(seg, q + 1, Len(seg)))>>
         P == [i \in 1..(Len(segs) - 1) |-> av(segs[i + 1])]      \* attributes found (order is not significant)
     IN /\ Len(P) = Len(c.attrs) + Len(c.flags)
-       \* the cookie-pair: key "=" value, white space around either part being insignificant (RFC 6265 5.2 step 4)
+       \* the cookie-pair: key "=" value; white space next to an "=" is insignificant (RFC 6265 5.2 step 4
+       \* trims name and value), so both sides are compared with such white space removed
        /\ \E one \in BOOLEAN :
-             LET kk == SemiToSpace(UnsafeToSpace(c.k, 1, one))
-                 vv == SemiToSpace(UnsafeToSpace(c.v, 1, one))
-             IN Trim(segs[1]) \in {Trim(kk \o <<EQUALS>> \o vv), Trim(kk) \o <<EQUALS>> \o Trim(vv),
-                                   Trim(Trim(kk) \o <<EQUALS>> \o vv), Trim(kk \o <<EQUALS>> \o Trim(vv))}
+             SqueezeEq(Trim(segs[1])) = SqueezeEq(Trim(SemiToSpace(UnsafeToSpace(c.k \o <<EQUALS>> \o c.v, 1, one))))
        /\ \A i \in 1..Len(c.attrs) :
              Cardinality({j \in 1..Len(P) : Len(P[j]) = 2 /\ P[j][1] = c.attrs[i][1] /\ P[j][2] \in CookieAlts(c.attrs[i][2])}) = 1
        /\ \A i \in 1..Len(c.flags) : Cardinality({j \in 1..Len(P) : P[j] = <<c.flags[i]>>}) = 1
